@@ -1,4 +1,4 @@
-CFG = {'assumptions': ["every position, size and n stays below 2^31 - 64 (Go's int32 cannot overflow; larger values are outside every statement)",
+CFG = {'assumptions': ["every position, size and n stays below 2^31 - 64 (Go's int32 cannot overflow; larger values are outside every statement). The exact bounds are the hypotheses of C12_int32_Of / _OfMany / _ToArray / _Builder, which prove that the int32-wrapped model (Model/BitmapOf32.v) equals the unbounded one there",
                  'every word is in [0,2^64) (words_ok)',
                  'position lists are ascending (duplicates allowed) and non-negative; sizes and Set positions are non-negative',
                  'OfMany is compared only where the shifted concatenation is ascending (DESIGN section 6, C12, interpretation recorded); Builder has no such restriction',
